@@ -404,7 +404,16 @@ func leafSchema(rng *rand.Rand, key string, metricBias int) *Schema {
 		return s
 	}
 	// non-metric leaf with a fixed value (varies per schema, not per sample... unless noted)
-	switch rng.Intn(13) {
+	// length-prefixed strings may hold NUL bytes (they are not C strings)
+	nulStr := [][]byte{append(u32(4), 'a', 0, 'b', 0), append(u32(2), 0, 0), append(u32(3), 0, 'x', 0)}[rng.Intn(3)]
+	switch rng.Intn(17) {
+	case 13:
+		s.Tag, s.Fixed = []byte{0x02, 0x0D, 0x0E}[rng.Intn(3)], nulStr
+	case 14:
+		s.Tag, s.Fixed = 0x0C, append(append([]byte{}, nulStr...), make([]byte, 12)...)
+	case 15:
+		scope := []byte{5, 0, 0, 0, 0}
+		s.Tag, s.Fixed = 0x0F, append(append(u32(uint32(4+len(nulStr)+len(scope))), nulStr...), scope...)
 	case 0:
 		s.Tag, s.Fixed = 0x02, append(u32(4), []byte("abc\x00")...)
 	case 1:
